@@ -1305,6 +1305,70 @@ def _hoist_helper_arg(st, resolve, owner):
     return None
 
 
+def fuse_comprehensions(func):
+    """`xs = [E(t) for t in IT if C]` ... `[F(x) for x in xs if D]` with `xs` a local bound once and read once (as that iterable)  ->
+    `[F(E(t)) for t in IT if C if D(E(t))]`: the intermediate list is never seen by anything else, each element is built and consumed
+    in the same order.  E must be free of side effects (no walrus / await / yield); in place, returns func."""
+    body = func.body
+    loads, stores = {}, {}
+    for n in ast.walk(func):
+        if isinstance(n, ast.Name):
+            (loads if isinstance(n.ctx, ast.Load) else stores).setdefault(n.id, []).append(n)
+    for i, st in enumerate(list(body)):
+        if not (isinstance(st, ast.Assign) and len(st.targets) == 1 and isinstance(st.targets[0], ast.Name) and isinstance(st.value, ast.ListComp)):
+            continue
+        name, inner = st.targets[0].id, st.value
+        if len(stores.get(name, [])) != 1 or len(loads.get(name, [])) != 1 or len(inner.generators) != 1 or inner.generators[0].is_async:
+            continue
+        if any(isinstance(x, (ast.NamedExpr, ast.Await, ast.Yield, ast.YieldFrom, ast.Lambda)) for x in ast.walk(inner)):
+            continue
+        use = loads[name][0]
+        for later in body[i + 1:]:
+            for outer in ast.walk(later):
+                if isinstance(outer, (ast.ListComp, ast.GeneratorExp)) and len(outer.generators) == 1 and outer.generators[0].iter is use \
+                        and isinstance(outer.generators[0].target, ast.Name) and not outer.generators[0].is_async:
+                    g_in, g_out = inner.generators[0], outer.generators[0]
+                    var = g_out.target.id
+                    inner_names = {x.id for x in ast.walk(g_in.target) if isinstance(x, ast.Name)}
+                    # the inner loop variables must not capture names the outer element / filters read
+                    outer_reads = {x.id for part in [outer.elt] + list(g_out.ifs) for x in ast.walk(part) if isinstance(x, ast.Name)} - {var}
+                    if inner_names & outer_reads:
+                        break
+                    m = {var: inner.elt}
+                    outer.elt = _Subst(dict(m)).visit(outer.elt)
+                    new_ifs = list(g_in.ifs) + [_Subst(dict(m)).visit(c) for c in g_out.ifs]
+                    outer.generators = [ast.comprehension(target=copy.deepcopy(g_in.target), iter=g_in.iter, ifs=new_ifs, is_async=0)]
+                    body.remove(st)
+                    ast.fix_missing_locations(func)
+                    return fuse_comprehensions(func)
+    return func
+
+
+def _writelines_loops(func, resolve):
+    """statement `F.writelines(self._pieces(..))` with `_pieces` a generator helper  ->  `for piece in self._pieces(..): F.write(piece)`
+    (what writelines does with an iterable of strings), so that the producer can be merged into the loop (inline_generator_loops)"""
+    class W(ast.NodeTransformer):
+        def visit_Expr(self, n):
+            c = n.value
+            if isinstance(c, ast.Call) and isinstance(c.func, ast.Attribute) and c.func.attr == "writelines" and len(c.args) == 1 and not c.keywords \
+                    and isinstance(c.func.value, ast.Name) and isinstance(c.args[0], ast.Call):
+                r = resolve(c.args[0])
+                if r is not None and r[0] is not func and _generator_callee(r[0]):
+                    var = f"_piece{next(_counter)}"
+                    call = ast.Call(func=ast.Attribute(value=copy.deepcopy(c.func.value), attr="write", ctx=ast.Load()), args=[ast.Name(id=var, ctx=ast.Load())], keywords=[])
+                    loop = ast.For(target=ast.Name(id=var, ctx=ast.Store()), iter=c.args[0], body=[ast.Expr(value=call)], orelse=[])
+                    return ast.fix_missing_locations(ast.copy_location(loop, n))
+            return n
+
+        def visit_FunctionDef(self, n):
+            if n is func:
+                self.generic_visit(n)
+            return n
+        visit_AsyncFunctionDef = visit_ClassDef = visit_Lambda = lambda self, n: n
+    W().visit(func)
+    return func
+
+
 def expand_helpers(func, resolve):
     """A function with the helpers it was split into put back (in place; hand in a copy).  resolve(call) -> (callee FunctionDef,
     receiver expr | None) | None decides which calls are helpers (pymodel.Package.expanded: methods of the same class reached
@@ -1329,6 +1393,7 @@ def expand_helpers(func, resolve):
             out.append(st)
         return out
     func.body = prepare(func.body)
+    _writelines_loops(func, resolve)
     inline_generator_loops(func, resolve)
     inline_stmt_calls(func, resolve)
     before = len(func.body), sum(1 for _ in ast.walk(func))
@@ -1409,6 +1474,11 @@ def namedtuple_rows(mod: ast.Module) -> ast.Module:
     literal table (unrolled like any other) and `row.text`, once `row` has been replaced by the row's display, is the element
     (_ConstGetattr).  Values only: nothing else about the type is used."""
     fields = namedtuple_fields(mod)
+    # (a NamedTuple class that defines METHODS is more than a row of values: its constructor call stays, valueflow reads it as a record
+    # whose methods can be called)
+    for st in ast.walk(mod):
+        if isinstance(st, ast.ClassDef) and st.name in fields and any(isinstance(b, (ast.FunctionDef, ast.AsyncFunctionDef)) for b in st.body):
+            del fields[st.name]
     if not fields:
         return mod
 
@@ -2073,7 +2143,7 @@ def _generator_callee(callee) -> bool:
                 return False
         if isinstance(n, ast.Expr) and isinstance(n.value, ast.Yield):
             stmt_yields += 1
-    return 1 <= yields <= 3 and yields == stmt_yields
+    return 1 <= yields <= 6 and yields == stmt_yields
 
 
 def _inline_generator_loops_multi(func, resolve, max_depth: int = 2):
@@ -2843,6 +2913,21 @@ def _static_seq(e, lits, depth: int = 0):
     return None
 
 
+_STR_PURE = ("partition", "rpartition", "split", "rsplit", "lower", "upper", "strip", "lstrip", "rstrip", "removeprefix", "removesuffix", "replace",
+             "title", "capitalize", "startswith", "endswith")
+
+
+def _const_node(v):
+    """literal node of a str / bool / int / None or a (nested) tuple / list of them, else None"""
+    if v is None or isinstance(v, (str, bool, int)):
+        return ast.Constant(value=v)
+    if isinstance(v, (tuple, list)) and len(v) <= 64:
+        elts = [_const_node(x) for x in v]
+        if all(e is not None for e in elts):
+            return (ast.Tuple if isinstance(v, tuple) else ast.List)(elts=elts, ctx=ast.Load())
+    return None
+
+
 class _Fold(ast.NodeTransformer):
     """scalar folding of the literal part of an expression (see fold_static)"""
 
@@ -2958,6 +3043,17 @@ class _Fold(ast.NodeTransformer):
         if name == "getattr" and len(n.args) == 2 and not n.keywords and isinstance(n.args[1], ast.Constant) and isinstance(n.args[1].value, str) \
                 and n.args[1].value.isidentifier():
             return ast.copy_location(ast.Attribute(value=n.args[0], attr=n.args[1].value, ctx=ast.Load()), n)
+        # a pure str method of a literal string with literal arguments is the literal it yields: "UMIST_AD".partition("_") -> ("UMIST", "_", "AD")
+        if isinstance(f, ast.Attribute) and isinstance(f.value, ast.Constant) and isinstance(f.value.value, str) and f.attr in _STR_PURE and not n.keywords \
+                and all(isinstance(a, ast.Constant) and isinstance(a.value, (str, int, type(None))) and not isinstance(a.value, bool) for a in n.args) \
+                and len(f.value.value) <= 256:
+            try:
+                r = getattr(f.value.value, f.attr)(*[a.value for a in n.args])
+            except Exception:
+                return n
+            lit = _const_node(r)
+            if lit is not None:
+                return ast.copy_location(lit, n)
         if isinstance(f, ast.Attribute) and f.attr == "get" and isinstance(f.value, ast.Dict) and 1 <= len(n.args) <= 2 and not n.keywords \
                 and isinstance(n.args[0], ast.Constant) and _const_keys(f.value) is not None and all(_pure(x, lambdas=True) for x in f.value.values):
             hit = [val for k, val in zip(f.value.keys, f.value.values) if _same_const(k.value, n.args[0].value)]
